@@ -125,6 +125,14 @@ def handle (op : String) (args res : List String) : Option Verdict :=
     let badCover := (ErrCover.coverage.filter fun c => !(c.api.ok && (keysOf c.how).all Key.ok)).map (·.api.s)
     let badApi := (Gen.ApiC13.api.filter fun f => !(f.key.ok && f.wf)).map (·.key.s)
     let badLists := ((ctorTable.map (·.1)) ++ parsers ++ fileReaders ++ sizeForms).filter fun k => !k.ok
+    -- the coverage obligation itself, evaluated natively so that a broken `api_covered` names the functions concerned
+    let uncovered := (Gen.ApiC13.api.filter fun f => f.hasIn && !(ErrCover.coverage.any (·.api == f.key))).map (·.key.s)
+    let stale := (ErrCover.coverage.filter fun c => !(Gen.ApiC13.api.any (·.key == c.api))).map (·.api.s)
+    if !uncovered.isEmpty || !stale.isEmpty then
+      .bad s!"api-coverage: public functions of include/GeographicLib/*.hpp with a floating-point / string / vector / stream input that no part of the contract covers: {uncovered}; covers of functions that no longer exist: {stale}"
+    else if !ErrCover.checkCoverage Gen.ApiC13.api ErrCover.coverage then
+      .bad "api-coverage: the coverage list does not pass checkCoverage (an invalid cover, or the list is not sorted like the inventory)"
+    else
     if badTable.isEmpty && badCover.isEmpty && badApi.isEmpty && badLists.isEmpty then .ok
     else .bad s!"key-code mismatch (label and numeric code of a key disagree): table {badTable} coverage {badCover} api {badApi} lists {badLists.map (·.s)}"
   | "c13_entry" => some <|
